@@ -403,6 +403,45 @@ for o in ("012", "210", "102"):
                           "nothing is receivable while a holder exists; after the last drop exactly one message naming that entity",
                           ("quick", "thorough") if o != "102" else ("thorough",)))
 
+OBLIGATIONS += [
+    k2("accessors.component", _k2h("react::react_component", "react_component_accessors_trigger_exactly"), ["C14"],
+       ["React::get", "React::get_noreact", "React::get_mut", "React::set_if_neq", "Deref for React"], ["src/react/react_component.rs"],
+       "old and new value any u8; 1 set_if_neq + 2 get_mut calls",
+       "reads and get_noreact queue nothing; get_mut queues exactly one trigger per call; set_if_neq stores, returns the old value and "
+       "queues exactly one trigger iff the values differ, otherwise nothing changes"),
+    k2("accessors.resource", _k2h("react::react_resource", "react_resource_accessors_trigger_exactly"), ["C14"],
+       ["ReactResInner::get_mut", "ReactResInner::get_noreact", "ReactResInner::set_if_neq", "ReactCommands::trigger_resource_mutation"],
+       ["src/react/react_resource.rs", "src/react/react_commands.rs"], "old and new value any u8",
+       "same contract for reactive resources"),
+    k2("accessors.insert", _k2h("react::react_commands", "react_commands_insert_only_on_existing_entity"), ["C14", "C18"],
+       ["ReactCommands::insert"], ["src/react/react_commands.rs"], "target symbolically a live entity or a stale id; component value any u8",
+       "insert queues a try_insert of React{entity, component} plus exactly one insertion trigger iff the entity exists when called; "
+       "nothing for a dead id"),
+    k2("syscall.spawned", _k2h("ecs::spawned_syscall", "spawned_syscall_state_and_effects"), ["C17", "C13"],
+       ["spawned_syscall", "spawn_system", "spawn_system_from", "CallbackSystem::run", "CallbackSystem::run_with_cleanup"],
+       ["src/ecs/spawned_syscall.rs", "src/ecs/callbacks.rs"],
+       "5 calls over 2 spawned ids of one function, a stale id and an emptied (running) slot; input any u8 < 100",
+       "output returned, commands applied on return, state persists per id and is independent between ids; missing or running system => Err, nothing runs"),
+    k2("syscall.spawned_self_despawn", _k2h("ecs::spawned_syscall", "spawned_syscall_self_despawn_returns_output"), ["C17", "C18"],
+       ["spawned_syscall"], ["src/ecs/spawned_syscall.rs", "src/ecs/callbacks.rs"], "a system that queues the despawn of its own entity; input any u8 < 100; components dropped by the despawn are leaked by the model (drop effects not the subject)",
+       "the call returns Ok(output) although the system's entity is gone afterwards; its commands were applied"),
+    k2("syscall.cached", _k2h("ecs::syscall", "syscall_state_per_function_type"), ["C17", "C13"],
+       ["syscall", "syscall_with_validation", "WorldSyscallExt::syscall_once"], ["src/ecs/syscall.rs"],
+       "5 calls over 2 function types + 1 syscall_once; input any u8 < 50",
+       "state persists per function type, is independent between types, commands applied on return, validation on first use only, "
+       "syscall_once uses a fresh system"),
+    k2("syscall.named", _k2h("ecs::named_syscall", "named_syscall_state_per_key"), ["C17"],
+       ["named_syscall", "SysName::new", "IdMappedSystems"], ["src/ecs/named_syscall.rs"], "3 calls with one name + 1 with another; input any u8 < 50",
+       "state persists over three calls with the same key (the system is put back every time); another name is independent"),
+]
+
+for (nm, what) in [("two_same_type", "2 entries of one reaction type"), ("two_types", "2 entries of two reaction types")]:
+    OBLIGATIONS.append(k2(f"entreactors.remove_{nm}", _k2h("react::utils", f"entreactors_remove_{nm}"), ["C06", "C01", "C16"],
+                          ["EntityReactors::remove", "EntityReactors::insert", "EntityReactors::count"], ["src/react/utils.rs"],
+                          f"per-entity table: {what}, reactor ids symbolic (3 values, duplicates allowed); revoked (reaction type, reactor) symbolic",
+                          "remove(rtype, id) deletes every entry of that reactor under that reaction type (all duplicates), nothing else; "
+                          "second application is a no-op"))
+
 # K1 obligations superseded by lighter K2 ones or too heavy for the quick tier (measured): restrict to thorough / drop
 # Dropped after measurement (they do not finish within the thorough caps, 14 GB / 1500 s, so keeping them would make a
 # check inconclusive on the unchanged tree; their subject moves to "outside the claim" in DESIGN.md section 4):
@@ -410,7 +449,7 @@ for o in ("012", "210", "102"):
 #  obligations refcount.order_*, mode.*, token.unique_entities, rc.entity_event_* / rc.insertion_* (iter_rtype, count in context);
 #  gc.*, revoke.routing_*, entreactors.remove_shape*, rc.despawn_dispatch_*: written, compile, exceed the caps.
 _THOROUGH_ONLY = set()
-_DROPPED = {"mode.prepare", "revoketoken.unique_entities", "autodespawn.refcount", "entreactors.dispatch", "entreactors.handles",
+_DROPPED = {"entreactors.remove_two_same_type", "entreactors.remove_two_types", "rc.insertion_1_2_0_1", "rc.mutation_0_0_2_1", "syscall.spawned_self_despawn", "desp.handle_lifetime", "mode.prepare", "revoketoken.unique_entities", "autodespawn.refcount", "entreactors.dispatch", "entreactors.handles",
             "entreactors.remove", "entreactors.witness", "gc.dead_in_front", "gc.released_and_held", "gc.all_released",
             "revoke.routing_dead", "revoke.routing_live", "entreactors.remove_shape0", "entreactors.remove_shape1",
             "entreactors.remove_shape2", "rc.despawn_dispatch_once", "rc.despawn_dispatch_twice"}
@@ -420,11 +459,27 @@ for o in OBLIGATIONS:
         o["tiers"] = ["thorough"]
 
 
+# Quick tier: an obligation that serves several properties is run in the quick check of the properties listed here only
+# (it is still part of every serving property's thorough check).  Chosen from measured wall times so that each quick
+# check stays within a few minutes at 4 CBMC processes.
+_QUICK_ONLY_FOR = {
+    "rc.entity_event_2_1_1": ["C01", "C05"], "rc.entity_event_0_0_1": ["C01", "C05"],
+    "rc.insertion_2_1_1_1": ["C01"], "rc.mutation_2_1_1_1": ["C01"],
+    "rc.revoke_component_1_0_1": ["C06"], "rc.revoke_component_1_0_0": [],
+    "rc.entity_event_dead": [], "rc.revoke_despawn_2_1": ["C06", "C18"], "rc.revoke_broadcast_2_1": ["C06", "C01"],
+    "sysevt.drain3": ["C12"], "evt.drain3": ["C03"], "desp.step": ["C12", "C03"], "ent.step": ["C12", "C03"],
+    "desp.witness": ["C12"], "ent.witness": ["C12"], "bundle.reactor_types": ["C06", "C16"],
+    "rc.broadcast_0_2": ["C01", "C05"], "rc.broadcast_2_1": ["C01", "C05", "C03"],
+}
+
+
 def for_property(pid, tier):
     only = os.environ.get("VERIF_ONLY")
     out = []
     for o in OBLIGATIONS:
         if only and not re.search(only, o["id"]):
+            continue
+        if tier == "quick" and pid != "ALL" and o["id"] in _QUICK_ONLY_FOR and pid not in _QUICK_ONLY_FOR[o["id"]]:
             continue
         if (pid in o["props"] or pid == "ALL") and tier in o.get("tiers", ["quick", "thorough"]):
             out.append(o)
